@@ -58,11 +58,22 @@ def mk_service(i, name=None, value=None):
                                                       coded_const("sub", 1 if value is None else value, 1)]))
 
 
+def mk_routine(i, name=None):
+    """a service of a family that shares the SID and is told apart by a PHYS-CONST sub-function; the request is a real
+    Request, so the identity the tool derives (coded_const_prefix) is computed by the real code"""
+    from contracts import build as B
+    rq = B.request([B.coded_const("sid", 0x31, 0), B.phys_const("routine", B.dop("u8r", 8), str(i + 1), 1),
+                    B.value_param("arg", B.dop("u8a", 8), 2)], name=f"rq{i}")
+    return GService(name or f"routine{i}", rq)
+
+
 EDITS = ["none", "add", "delete", "rename", "change-param"]
 
 
 def _fam(tier, seed):
-    return [{"k": k, "edit": e} for k in ((1, 2, 3) if tier == "quick" else (1, 2, 3, 4)) for e in EDITS]
+    return [{"k": k, "edit": e, "requests": "ghost"} for k in ((1, 2, 3) if tier == "quick" else (1, 2, 3, 4))
+            for e in EDITS] + \
+           [{"k": 2, "edit": e, "requests": "real-phys-const"} for e in ("none", "add", "delete", "rename")]
 
 
 @harness(props=["C18"], strength="B", family=_fam,
@@ -70,24 +81,25 @@ def _fam(tier, seed):
          "parameter) applied to a picked service",
          functions=[Comparison.compare_diagnostic_layers, Comparison.compare_services, Comparison.compare_parameters],
          covers=["done"])
-def single_edit_is_reported_as_such(k, edit):
+def single_edit_is_reported_as_such(k, edit, requests):
     """compare(new, old): no change for identical layers; an added / deleted / renamed service or a changed parameter is
     reported as exactly that kind of change for exactly that service"""
-    old = GLayer("layer", [mk_service(i) for i in range(k)])
+    mk = mk_service if requests == "ghost" else mk_routine
+    old = GLayer("layer", [mk(i) for i in range(k)])
     idx = H.pick("which", list(range(k)))
-    new_services = [mk_service(i) for i in range(k)]
+    new_services = [mk(i) for i in range(k)]
     target_old = old.services[idx]
     expect = {"new": [], "deleted": [], "renamed": [], "changed": []}
     if edit == "add":
         pos = H.pick("insert_at", list(range(k + 1)))
-        added = mk_service(9, "brand_new")
+        added = mk(9, "brand_new")
         new_services.insert(pos, added)
         expect["new"] = [added]
     elif edit == "delete":
         del new_services[idx]
         expect["deleted"] = [target_old]
     elif edit == "rename":
-        new_services[idx] = mk_service(idx, name="renamed")
+        new_services[idx] = mk(idx, name="renamed")
         expect["renamed"] = [(new_services[idx], target_old.short_name)]
     elif edit == "change-param":
         new_services[idx] = mk_service(idx, value=2)
@@ -205,3 +217,37 @@ def _dop_parameter_comparison(attr):
     r = Comparison().compare_parameters(p1, p2)
     H.cover("done")
     H.check("C18:exactly-the-differing-attributes-are-listed", r["Property"] == expected)
+
+
+# the overview of a layer that really went through inheritance: the numbers are those of the view ISO 22901-1
+# prescribes (services and data objects of the parent plus the local ones; communication parameters per specification
+# and protocol, the local definition overriding the inherited one with the same key only)
+from contracts import hierarchy as HY  # noqa: E402
+from odxtools.diaglayers.hierarchyelement import HierarchyElement  # noqa: E402
+
+
+@harness(props=["C18"], strength="B",
+         family=lambda t, s: [{"child_protocol": a, "parent_protocol": b} for a in (None, "UDS") for b in (None, "UDS")],
+         bound="a base variant with one protocol parent; one communication parameter defined in both layers with or "
+         "without protocol qualifier",
+         functions=[print_dl_metrics, HierarchyElement._finalize_init,
+                    HierarchyElement._compute_available_commmunication_parameters], covers=["done"], crosscheck=False)
+def overview_of_an_inheriting_layer(child_protocol, parent_protocol):
+    """print_dl_metrics on a layer after inheritance reports the numbers of the inherited view"""
+    parent = HY._full_layer("pr", "PR", True, ["p", "q", "j"])
+    child = HY._full_layer("bv", "BV", True, ["r"])
+    spec = HY.mk_spec("CP_X", "1")
+    parent.diag_layer_raw.comparam_refs = [HY.mk_instance(spec, "cp.CP_X", "2", parent_protocol)]
+    child.diag_layer_raw.comparam_refs = [HY.mk_instance(spec, "cp.CP_X", "3", child_protocol)]
+    ref = HY.GhostFullParentRef(parent)
+    for lst in HY.EXCLUSION_LISTS:
+        setattr(ref, lst, [])
+    child.diag_layer_raw.parent_refs.append(ref)
+    parent._finalize_init(None, None)
+    child._finalize_init(None, None)
+    print_dl_metrics([child])
+    rows = H.events("table_row")
+    H.cover("done")
+    n_cp = 1 if child_protocol == parent_protocol else 2
+    H.check("C18:overview-reports-the-numbers-of-the-inherited-view",
+            len(rows) == 1 and list(rows[0][0]) == ["bv", "BASE-VARIANT", "3", "4", str(n_cp)])
